@@ -46,9 +46,12 @@ func (d *ManyToOne) Set(data GenericDataType) {
 		old := atomic.LoadPointer(&d.buffer[idx])
 		VerifAt("m2o.set.loaded", writeIndex)
 
+		// During the first lap writeIndex-len(buffer) would wrap around: any
+		// occupant found then was written by a later lap and is newer.
 		if old != nil &&
 			(*bucket)(old) != nil &&
-			(*bucket)(old).seq > writeIndex-uint64(len(d.buffer)) {
+			(writeIndex < uint64(len(d.buffer)) ||
+				(*bucket)(old).seq > writeIndex-uint64(len(d.buffer))) {
 			VerifAt("m2o.set.collision", writeIndex)
 			log.Println("Diode set collision: consider using a larger diode")
 			continue
